@@ -126,6 +126,22 @@ def run(ctx):
                               "files dropped from the link escape the chain" % ", ".join("%s/%s: %s" % x for x in refused[:3]),
                               {"chain": chain, "refused": refused})
             continue
+        # what each link says was there must be what the specification of recording says was there: a file that is
+        # left out or recorded under another name is outside every later comparison
+        drift = []
+        for r in recs:
+            for field, k in (("materials", "mat_before"), ("products", "prod_after")):
+                want = r.get(k, {}).get("ok") if isinstance(r.get(k), dict) else None
+                got = (r.get("payload") or {}).get(field)
+                if want is not None and got is not None and got != want:
+                    names = sorted(set(want) ^ set(got)) or sorted(n for n in want if want[n] != got.get(n))
+                    drift.append("%s/%s: %s" % (r["name"], field, ", ".join(names[:4])))
+        if drift:
+            viol += 1
+            if viol <= 3:
+                ctx.violation("the recorded links do not cover what the specification of recording covers (%s): changes to these "
+                              "files escape the chain" % "; ".join(drift[:3]), {"chain": chain, "drift": drift})
+            continue
         family = ctx.rng.choice(["R", "B"])
         layout = ch.derive_layout(ctx.rng, chain, recs, family)
         layout_md = ch.sign_layout(layout, owner, dsse=ctx.rng.random() < 0.3)
@@ -210,6 +226,21 @@ def run(ctx):
 
 def replay(ctx, obj):
     r = obj["replay"]
+    if "drift" in r:
+        recs, project, linkdir = ch.record_chain(ctx, r["chain"])
+        ch.resolve_records(core.Model(), recs)
+        bad = []
+        for x in recs:
+            for field, k in (("materials", "mat_before"), ("products", "prod_after")):
+                want = x.get(k, {}).get("ok") if isinstance(x.get(k), dict) else None
+                got = (x.get("payload") or {}).get(field)
+                if want is not None and got is not None and got != want:
+                    bad.append("%s/%s" % (x["name"], field))
+        print("links that differ from the specified recording:", bad)
+        if bad:
+            print("VIOLATION property=C04 replay=%s" % obj.get("rerun", "").split()[-1])
+            return 1
+        return 0
     if "refused" in r:
         recs, project, linkdir = ch.record_chain(ctx, r["chain"])
         ok = all(x["file_exists"] and not x["exc"] for x in recs)
